@@ -205,6 +205,8 @@ func rulesC17(c *Ctx) {
 
 	// ---- R5 tail slicing ---------------------------------------------------------------------------
 	n5 := 0
+	for _, f := range append([]*ssa.Function{f}, privateHelpersOf(f)...) {
+	facts := factsFor(f)
 	eachInstr(f, func(b *ssa.BasicBlock, _ int, in ssa.Instruction) {
 		sl, ok := in.(*ssa.Slice)
 		if !ok || sl.High == nil || !isStringy(sl.X.Type()) {
@@ -237,8 +239,57 @@ func rulesC17(c *Ctx) {
 				okS = true
 			}
 		}
+		// the guarantee may be the helper's precondition: the sliced string is a parameter and
+		// every call site passes a value already known to end with a long-enough constant suffix
+		if pp, isP := sl.X.(*ssa.Parameter); isP && !okS {
+			if kk, isK := constInt(bo.Y); isK {
+				pi := -1
+				for i, q := range f.Params {
+					if q == pp {
+						pi = i
+					}
+				}
+				sites, good := 0, true
+				for _, g := range append([]*ssa.Function{c.P.Func("varutil", "", "ReadArguments")}, privateHelpersOf(c.P.Func("varutil", "", "ReadArguments"))...) {
+					if g == nil {
+						continue
+					}
+					gf := factsFor(g)
+					for _, ci := range Calls(g) {
+						if ci.Static != f || pi < 0 || pi >= len(ci.Common.Args) {
+							continue
+						}
+						sites++
+						arg := ci.Common.Args[pi]
+						found := false
+						for k := range gf.At(ci.Block) {
+							call, isCall := k.v.(*ssa.Call)
+							if !isCall || !k.pol {
+								continue
+							}
+							if cf := call.Call.StaticCallee(); cf == nil || qualName(cf) != "strings.HasSuffix" {
+								continue
+							}
+							if !sameStringValue(call.Call.Args[0], arg, call, ci.Instr) {
+								continue
+							}
+							if sfx, isS := constString(call.Call.Args[1]); isS && int64(len(sfx)) >= kk {
+								found = true
+							}
+						}
+						if !found {
+							good = false
+						}
+					}
+				}
+				if sites > 0 && good {
+					okS = true
+				}
+			}
+		}
 		c.Check(okS, "R5", con, sl.Pos(), "dominated by HasSuffix of the same string with a suffix at least as long as what is cut", "the tail is cut without a dominating HasSuffix guarantee — a short string slices out of range (panic)")
 	})
+	}
 	c.Floor("R5", n5, 1)
 
 	// ---- R6 the escape flag covers one byte -------------------------------------------------------------
@@ -410,6 +461,29 @@ func ruleArgMapping(c *Ctx) {
 			}
 		}
 	}
+	// or a hand-written scan: an ascending loop from index 0 that stops at the first byte equal to '='
+	if !okS {
+		for _, g := range reachableSamePkg(inj, 2) {
+			eachInstr(g, func(_ *ssa.BasicBlock, _ int, in ssa.Instruction) {
+				bo, ok := in.(*ssa.BinOp)
+				if !ok || (bo.Op != token.EQL && bo.Op != token.NEQ) {
+					return
+				}
+				k, isK := constInt(bo.Y)
+				if !isK || k != '=' {
+					return
+				}
+				if ix, ok := bo.X.(*ssa.Index); ok && isStringy(ix.X.Type()) && ascendingIndex(ix.Index) {
+					okS = true
+				}
+				if ld, ok := bo.X.(*ssa.UnOp); ok {
+					if ia, ok := ld.X.(*ssa.IndexAddr); ok && ascendingIndex(ia.Index) {
+						okS = true
+					}
+				}
+			})
+		}
+	}
 	c.Check(okS, "R8", "named arguments split at the first '='", inj.Pos(), "strings.Index(arg, \"=\")", "name/value are not separated at the first '=' (a value containing '=' is cut)")
 	// every argument is mapped: no iteration of the argument loop goes round without a SetValue
 	hasSet := func(b *ssa.BasicBlock) bool {
@@ -498,7 +572,16 @@ func ruleSplitterCallers(c *Ctx, ra *ssa.Function) {
 				}
 			}
 			if !okR && len(calls) > 0 {
-				bad, pos = "a result of SplitArguments ("+vdesc(resolve(r.Results[0]))+") is not ReadArguments' result", r.Pos()
+				// a constant answer for a special input cannot be judged here; a second tokeniser can
+				derived := false
+				for _, o := range Origins(r.Results[0], FlowOpts{Alias: true}) {
+					if o.Kind == "call" || o.Kind == "param" || o.Kind == "unknown" {
+						derived = true
+					}
+				}
+				if derived {
+					bad, pos = "a result of SplitArguments ("+vdesc(resolve(r.Results[0]))+") is not ReadArguments' result", r.Pos()
+				}
 			}
 		}
 		c.Check(bad == "", "R3", "varutil.SplitArguments is ReadArguments on the string", pos, "every return hands on ReadArguments' results",
@@ -595,40 +678,83 @@ func predicateImpliesASCII(g *ssa.Function) bool {
 // Read into a buffer that is itself a parameter bound, at the call, to a
 // one-byte buffer.
 func helperOnlyReadsOneByte(h *ssa.Function, ri int, callArgs []ssa.Value) bool {
-	if h.Blocks == nil {
+	argOK := make([]bool, len(callArgs))
+	for i, a := range callArgs {
+		argOK[i] = isOneByteBuf(a)
+	}
+	return helperOnlyReadsOneByteD(h, ri, argOK, 0)
+}
+
+func isOneByteBuf(v ssa.Value) bool {
+	if sl, ok := v.(*ssa.Slice); ok {
+		if a, ok := sl.X.(*ssa.Alloc); ok && constMakeLen(a) == 1 {
+			return true
+		}
+	}
+	return false
+}
+
+// helperOnlyReadsOneByteD: parameter ri of h (the input reader) is only Read
+// from with a one-byte buffer, or handed on to another private helper of the
+// package for which the same holds.
+func helperOnlyReadsOneByteD(h *ssa.Function, ri int, argOK []bool, depth int) bool {
+	if h.Blocks == nil || depth > 3 || ri >= len(h.Params) {
 		return false
 	}
 	rp := h.Params[ri]
+	bufOK := func(v ssa.Value) bool {
+		if isOneByteBuf(v) {
+			return true
+		}
+		for bi, bp := range h.Params {
+			if v == ssa.Value(bp) && bi < len(argOK) && argOK[bi] {
+				return true
+			}
+		}
+		return false
+	}
 	n := 0
 	for _, r := range *rp.Referrers() {
 		switch x := r.(type) {
 		case *ssa.DebugRef:
 		case *ssa.Call:
-			if !(x.Call.IsInvoke() && x.Call.Value == ssa.Value(rp) && x.Call.Method.Name() == "Read") {
+			if x.Call.IsInvoke() && x.Call.Value == ssa.Value(rp) && x.Call.Method.Name() == "Read" {
+				n++
+				if !bufOK(x.Call.Args[0]) {
+					return false
+				}
+				continue
+			}
+			cf := x.Call.StaticCallee()
+			if cf == nil || cf.Pkg != h.Pkg || cf.Blocks == nil {
+				return false
+			}
+			inner := make([]bool, len(x.Call.Args))
+			idx := -1
+			for ai, a := range x.Call.Args {
+				inner[ai] = bufOK(a)
+				if a == ssa.Value(rp) {
+					idx = ai
+				}
+			}
+			if idx < 0 || !helperOnlyReadsOneByteD(cf, idx, inner, depth+1) {
 				return false
 			}
 			n++
-			okBuf := false
-			for bi, bp := range h.Params {
-				if x.Call.Args[0] == ssa.Value(bp) && bi < len(callArgs) {
-					if sl, ok := callArgs[bi].(*ssa.Slice); ok {
-						if a, ok := sl.X.(*ssa.Alloc); ok && constMakeLen(a) == 1 {
-							okBuf = true
-						}
-					}
-				}
-			}
-			if sl, ok := x.Call.Args[0].(*ssa.Slice); ok {
-				if a, ok := sl.X.(*ssa.Alloc); ok && constMakeLen(a) == 1 {
-					okBuf = true
-				}
-			}
-			if !okBuf {
-				return false
-			}
 		default:
 			return false
 		}
 	}
 	return n > 0
+}
+
+// privateHelpersOf: unexported functions of f's package reachable from f that nobody else calls.
+func privateHelpersOf(f *ssa.Function) []*ssa.Function {
+	var out []*ssa.Function
+	for _, g := range reachableSamePkg(f, 3) {
+		if g != f && g.Parent() == nil && (g.Object() == nil || !g.Object().Exported()) {
+			out = append(out, g)
+		}
+	}
+	return out
 }
